@@ -50,6 +50,7 @@ type memWatch struct {
 	in     chan *etcdserverpb.WatchRequest
 	mu     sync.Mutex
 	out    []*etcdserverpb.WatchResponse
+	stall  chan struct{} // when set before the stream starts: every message after Created waits until it is closed
 }
 
 func newMemWatch() *memWatch {
@@ -66,6 +67,13 @@ func (m *memWatch) Send(r *etcdserverpb.WatchResponse) error {
 	c := &etcdserverpb.WatchResponse{}
 	if err := c.Unmarshal(b); err != nil {
 		return err
+	}
+	if st := m.stall; st != nil && !c.Created {
+		// a slow client: the encoded message waits for flow control
+		select {
+		case <-st:
+		case <-m.ctx.Done():
+		}
 	}
 	m.mu.Lock()
 	m.out = append(m.out, c)
@@ -299,11 +307,63 @@ type sut struct {
 	alloc uint64 // last revision the backend has dealt (tracked through response headers)
 }
 
+// engGate holds the next engine batch of one write before it begins (memkv takes its store lock at
+// BeginBatchWrite, so the write is parked in front of it): its revision has been dealt but is unresolved.
+type engGate struct {
+	mu      sync.Mutex
+	armed   bool
+	arrived chan struct{}
+	release chan struct{}
+}
+
+var eg = &engGate{arrived: make(chan struct{}, 1), release: make(chan struct{})}
+
+func (g *engGate) before(kind string, key []byte) error {
+	if kind != "batch" {
+		return nil
+	}
+	g.mu.Lock()
+	a := g.armed
+	g.armed = false
+	g.mu.Unlock()
+	if a {
+		g.arrived <- struct{}{}
+		<-g.release
+	}
+	return nil
+}
+
+type txnResult struct {
+	resp *etcdserverpb.TxnResponse
+	err  error
+}
+
+// heldTxn starts a transaction whose engine write is parked; it returns once the write is parked.
+func (s *sut) heldTxn(t Txn) (chan txnResult, bool) {
+	eg.mu.Lock()
+	eg.armed = true
+	eg.mu.Unlock()
+	done := make(chan txnResult, 1)
+	go func() {
+		ctx, cancel := context.WithTimeout(context.Background(), 10*time.Second)
+		defer cancel()
+		resp, err := s.srv.Txn(ctx, t.pb())
+		done <- txnResult{resp, err}
+	}()
+	select {
+	case <-eg.arrived:
+		return done, true
+	case <-time.After(2 * time.Second):
+		return done, false
+	}
+}
+
 func newSut(scratch string, base uint64) (*sut, error) {
-	kv, _, err := lib.NewEngine(lib.EngMem, scratch)
+	kv0, _, err := lib.NewEngine(lib.EngMem, scratch)
 	if err != nil {
 		return nil, err
 	}
+	kv := &lib.Wrap{KvStorage: kv0, Before: eg.before}
 	be := backend.NewBackend(kv, backend.Config{Prefix: "/registry", Identity: "c16", EnableEtcdCompatibility: true}, &lib.NopMetrics{})
 	be.SetCurrentRevision(base)
 	p := &peers{Stub: &leader.Stub{ElectionInfo: leader.ElectionInfo{LeaderAddress: "127.0.0.1:0", IsLeader: true}}, EtcdProxy: etcdproxy.NewDisabledEtcdProxy()}
@@ -992,6 +1052,166 @@ func corpus() []plan {
 	}
 }
 
+// ---------- scenarios with an unresolved lower revision ----------
+
+func listingCoq(s *sut, ns []byte) string {
+	lst, err := s.rng(Rng{Key: ns, End: prefixEnd(ns)})
+	if err != nil {
+		return "None"
+	}
+	return lib.Some(kvsCoq(lst.Kvs))
+}
+
+// runGated: while the write of another key (revision r+1) is parked in front of the engine, an acknowledged
+// write of K at r+2 and then stale guarded transactions on K: their failure branch must carry K's current kv.
+func runGated(s *sut, w *lib.Writer, idx int, deleteFirst bool) {
+	ns := []byte(fmt.Sprintf("/h%05d/", idx))
+	base := s.be.GetCurrentRevision()
+	kA, slow := K(ns, "a"), K(ns, "slow")
+	var steps []string
+	var js []interface{}
+	failed := ""
+	add := func(t Txn, resp *etcdserverpb.TxnResponse, err error, listing string, label string) {
+		oc, _ := txnRespCoq(resp, err)
+		if listing == "" {
+			steps = append(steps, lib.App("STxnNL", t.coq(), oc))
+		} else {
+			steps = append(steps, lib.App("STxn", t.coq(), oc, listing))
+		}
+		js = append(js, map[string]interface{}{"txn": label, "req": t.pb().String(), "resp": fmt.Sprint(resp), "err": fmt.Sprint(err)})
+	}
+	t1 := shapeCreate(kA, []byte("v1"))
+	r1, e1, _ := s.txn(t1)
+	add(t1, r1, e1, listingCoq(s, ns), "create K")
+	var rev0 int64
+	if e1 == nil && r1 != nil {
+		rev0 = r1.Header.Revision
+	}
+	tslow := shapeCreate(slow, []byte("s"))
+	done, ok := s.heldTxn(tslow)
+	if !ok {
+		failed = "the slow write did not reach the engine gate"
+	}
+	var t3 Txn
+	if deleteFirst {
+		t3 = shapeDelete(kA, rev0)
+	} else {
+		t3 = shapeUpdate(kA, []byte("v2"), rev0)
+	}
+	r3, e3, _ := s.txn(t3)
+	t4 := shapeUpdate(kA, []byte("v3"), rev0) // stale
+	r4, e4, _ := s.txn(t4)
+	t5 := shapeDelete(kA, rev0) // stale
+	r5, e5, _ := s.txn(t5)
+	committedDuring := s.be.GetCurrentRevision()
+	eg.release <- struct{}{}
+	var rs txnResult
+	select {
+	case rs = <-done:
+	case <-time.After(3 * time.Second):
+		failed = "the slow write did not finish"
+	}
+	s.settle()
+	// in revision order
+	add(tslow, rs.resp, rs.err, "", "create slow (held)")
+	add(t3, r3, e3, "", "acknowledged write of K")
+	add(t4, r4, e4, "", "stale update of K")
+	add(t5, r5, e5, "", "stale delete of K")
+	tz := shapeCreate(K(ns, "z"), []byte("z"))
+	rz, ez, _ := s.txn(tz)
+	add(tz, rz, ez, listingCoq(s, ns), "create z")
+	kind := "corpus-gated-stale-after-update"
+	if deleteFirst {
+		kind = "corpus-gated-stale-after-delete"
+	}
+	cs := lib.Case{Kind: kind, Coq: lib.App("C16Hist", lib.N(base), lib.Bytes(ns), lib.List(steps), "[]", "None"),
+		JSON: map[string]interface{}{"ns": string(ns), "base": base, "steps": js, "committed_while_held": committedDuring}, Outcomes: []string{"gated"}}
+	w.Add(cs)
+	if failed != "" {
+		w.Fail(lib.ImplFailure{CaseID: w.Len() - 1, What: failed, Case: cs.JSON})
+	}
+}
+
+// runBurst: a prefix watch with a stalled client; ~110 creates; one create parked at the engine with
+// eventBatchSize+50 creates behind it; release; the client catches up: every create exactly once, in order.
+func runBurst(s *sut, w *lib.Writer, idx int) {
+	ns := []byte(fmt.Sprintf("/h%05d/", idx))
+	base := s.be.GetCurrentRevision()
+	var steps []string
+	failed := ""
+	sub0 := atomic.LoadInt64(&subscribed)
+	mw := newMemWatch()
+	mw.stall = make(chan struct{})
+	wdone := make(chan error, 1)
+	go func() { wdone <- s.srv.Watch(mw) }()
+	mw.in <- &etcdserverpb.WatchRequest{RequestUnion: &etcdserverpb.WatchRequest_CreateRequest{CreateRequest: &etcdserverpb.WatchCreateRequest{Key: ns, RangeEnd: prefixEnd(ns), PrevKv: true}}}
+	if !lib.WaitUntil(2*time.Second, func() bool { _, ok := createdID(mw.snapshot(), 0); return ok && atomic.LoadInt64(&subscribed) > sub0 }) {
+		failed = "watch not created"
+	}
+	n := 0
+	create := func() Txn {
+		n++
+		return shapeCreate(K(ns, fmt.Sprintf("k%04d", n)), []byte("v"))
+	}
+	do := func(t Txn) {
+		resp, err, _ := s.txn(t)
+		oc, _ := txnRespCoq(resp, err)
+		steps = append(steps, lib.App("STxnNL", t.coq(), oc))
+	}
+	for i := 0; i < 110; i++ {
+		do(create())
+	}
+	held := create()
+	done, ok := s.heldTxn(held)
+	if !ok {
+		failed = "the held write did not reach the engine gate"
+	}
+	heldAt := len(steps)
+	steps = append(steps, "") // filled in when it completes
+	for i := 0; i < backend.VerifEventBatchSize+50; i++ {
+		do(create())
+	}
+	eg.release <- struct{}{}
+	var rs txnResult
+	select {
+	case rs = <-done:
+	case <-time.After(3 * time.Second):
+		failed = "the held write did not finish"
+	}
+	oc, _ := txnRespCoq(rs.resp, rs.err)
+	steps[heldAt] = lib.App("STxnNL", held.coq(), oc)
+	s.settle()
+	// some more events while the client is still stalled, then let it catch up
+	for i := 0; i < 20; i++ {
+		do(create())
+	}
+	time.Sleep(20 * time.Millisecond)
+	close(mw.stall)
+	sent := K(ns, "~end")
+	ts := shapeCreate(sent, []byte("end"))
+	resp, err, _ := s.txn(ts)
+	oc2, _ := txnRespCoq(resp, err)
+	steps = append(steps, lib.App("STxn", ts.coq(), oc2, listingCoq(s, ns)))
+	id0, _ := createdID(mw.snapshot(), 0)
+	if !lib.WaitUntil(5*time.Second, func() bool { return bytes.Equal(lastEventKey(mw.snapshot(), id0), sent) }) && failed == "" {
+		failed = "sentinel event did not arrive"
+	}
+	watchCoq, nEvents := eventsCoq(mw.snapshot(), id0)
+	mw.cancel()
+	select {
+	case <-wdone:
+	case <-time.After(3 * time.Second):
+		failed = "watch stream did not end"
+	}
+	cs := lib.Case{Kind: "corpus-burst-full-batch", Coq: lib.App("C16Hist", lib.N(base), lib.Bytes(ns), lib.List(steps), watchCoq, "None"),
+		JSON: map[string]interface{}{"ns": string(ns), "base": base, "creates": n + 1, "events": nEvents, "scenario": "stalled watch client, one write parked with eventBatchSize+50 writes behind it"},
+		Outcomes: []string{"burst"}}
+	w.Add(cs)
+	if failed != "" {
+		w.Fail(lib.ImplFailure{CaseID: w.Len() - 1, What: failed, Case: cs.JSON})
+	}
+}
+
 func main() {
 	lib.QuietLogs()
 	args := lib.ParseArgs()
@@ -1023,6 +1243,12 @@ func main() {
 		runHistory(s, w, idx, rnd.Fork(), pl)
 		idx++
 	}
+	runGated(s, w, idx, false)
+	idx++
+	runGated(s, w, idx, true)
+	idx++
+	runBurst(s, w, idx)
+	idx++
 	for i := 0; i < nSup; i++ {
 		runHistory(s, w, idx, rnd.Fork(), plan{kind: "supported-history", nOps: 4 + rnd.Intn(9), watch: true, watchRev: i%3 == 0})
 		idx++
